@@ -195,6 +195,28 @@ def readNameTree (rdT : Prim → R Val) (env : Env) (p : Prim) : R NameTreeV :=
       | none, none => .ok ⟨lim, .inter []⟩
   | .ok _ => .error (.tryE .other)
 
+def specNames (wrT : Val → R Prim) : List (List UInt8 × Val) → R (List Prim)
+  | [] => .ok []
+  | (k, v) :: r =>
+    match wrT v with
+    | .error e => .error e
+    | .ok p =>
+      match specNames wrT r with
+      | .ok t => .ok (.str k :: p :: t)
+      | .error e => .error e
+
+/-- `<< /Limits [(a) (b)] /Names [(k1) v1 …] >>` resp. `/Kids [refs]`, the counterpart of `NumberTree::to_primitive` -/
+def specNameTree (wrT : Val → R Prim) (t : NameTreeV) : R Prim :=
+  let d0 : Dict := match t.limits with
+    | some (a, b) => dinsert "Limits" (.arr [.str a, .str b]) []
+    | none => []
+  match t.node with
+  | .leaf items =>
+    match specNames wrT items with
+    | .ok ps => .ok (.dict (dinsert "Names" (.arr ps) d0))
+    | .error e => .error e
+  | .inter kids => .ok (.dict (dinsert "Kids" (.arr (kids.map fun k => .ref k.1 k.2)) d0))
+
 /-! ## Streams as far as these pairs need them -/
 
 inductive TPrim where
